@@ -1,7 +1,7 @@
 (* Runner: the exported graph of a top-level evaluation. *)
 From Coq Require Import List Ascii String ZArith NArith Bool.
 From DDS Require Import Base.Bytes Base.Sha256 L0_Hash.PyVal L1_Args.ArgCtx L3_Sig.Program L3_Sig.Sig L3_Sig.RunSig L4_Eval.Stages
-     L4_Eval.DdsEval L4_Eval.RunEval L7_Graph.Structure.
+     L4_Eval.DdsEval L4_Eval.RunEval L7_Graph.Structure L7_Graph.GraphSpec.
 Import ListNotations.
 Local Open Scope string_scope.
 
@@ -12,7 +12,8 @@ Definition run_export (f : fn) (sty : style) (pos : list pyval) (kw : list (byte
   | inl o => render_outcome o
   | inr (x, _) =>
     match fetch_refs (s_paths s) (loads_to_check c f) with
-    | Some R0 => "ok:" ++ render_graph (structure x R0)
+    | Some R0 => "ok:" ++ render_graph (structure x R0) ++ "#" ++
+                 String.concat "," (map (fun n => show (fst n) ++ "=" ++ show (snd n)) (kept_nodes x))
     | None => "dds:NONE"
     end
   end.
